@@ -259,13 +259,12 @@ def readStream (c : Codec) (d : Decls) (rm : RealMap) (stream : List Nat) (stop 
     | .ok _ => .ok v.enc
     | .err _ => .err
 
-/-- `determine_thread_chunks`; `none` = division by zero -/
-def determineChunks (bodyLen threads minChunk : Nat) : Option (List (Nat × Nat)) :=
+/-- `determine_thread_chunks` (at least one chunk, also for an empty body) -/
+def determineChunks (bodyLen threads minChunk : Nat) : List (Nat × Nat) :=
   let forMin := divCeil bodyLen minChunk
-  let n := min threads forMin
-  if n = 0 then none else
+  let n := max 1 (min threads forMin)
   let chunk := divCeil bodyLen n
-  some ((List.range n).map fun i => (i * chunk, chunk))
+  (List.range n).map fun i => (i * chunk, chunk)
 
 inductive Mode
   | single                         -- mmap path, multi_thread = false: stop = len - 1
@@ -275,11 +274,11 @@ inductive Mode
 
 /-- `read_body` / `read_values`: the final encoder, or err / panic -/
 def readValues (c : Codec) (d : Decls) (rm : RealMap) (body : List Nat) : Mode → Res Enc
-  | .single => readStream c d rm body (if body.length = 0 then none else some (body.length - 1)) true
-  | .singleChecked => if body.length = 0 then .panic else readStream c d rm body (some (body.length - 1)) true
+  | .single => readStream c d rm body (some (body.length - 1)) true
+  | .singleChecked => readStream c d rm body (some (body.length - 1)) true
   | .reader fileLen => readStream c d rm body (some fileLen) true
   | .multi threads minChunk =>
-    match determineChunks body.length threads minChunk with
+    match some (determineChunks body.length threads minChunk) with
     | none => .panic
     | some chunks =>
       let rs := chunks.map fun (start, len) =>
@@ -402,7 +401,7 @@ def chunkTimesOk (body : List Nat) (chunks : List (Nat × Nat)) : Bool :=
   go chunks none true
 
 def handoverSafe (body : List Nat) (threads minChunk : Nat) : Bool :=
-  match determineChunks body.length threads minChunk with
+  match some (determineChunks body.length threads minChunk) with
   | none => false
   | some chunks =>
     chunks.length ≤ 1 || (lineDisciplined body && chunkTimesOk body chunks &&
